@@ -171,7 +171,7 @@ def gen_cases(tier, rng):
                 ops += ['SC', _msg()]
             cases.append(_finish(ops))
     # random scripts
-    nrand = 1500 if tier == 'quick' else 20000
+    nrand = 6000 if tier == "quick" else 60000
     anames = ['a', 'b', 'req', '']
     avals = ['1', '22', '', 'x y', 'value']
     texts = ['', 'hello', 'multi word text', 'x']
